@@ -16,6 +16,7 @@ import concurrent.futures
 import itertools
 import json
 import os
+import signal
 import subprocess
 import sys
 
@@ -47,6 +48,17 @@ class CountingDeque(collections.deque):
         return collections.deque.popleft(self)
 
 
+class CaseTimeout(Exception):
+    pass
+
+
+def _alarm(_sig, _frm):
+    raise CaseTimeout()
+
+
+CASE_TIMEOUT_S = 40  # the slowest real combination takes ~1.5 s on an idle machine
+
+
 def run_real(case):
     """-> (kind, result, number of loop iterations)"""
     init, pats, limit, prio = case
@@ -58,20 +70,34 @@ def run_real(case):
         kw["depth_limit"] = limit
     if prio is not None:
         kw["symbol_priority"] = list(prio)
+    old = signal.signal(signal.SIGALRM, _alarm)
+    signal.alarm(CASE_TIMEOUT_S)
     try:
         out = sr.make_matching_sequence(list(init), *pats, **kw)
         return ("ok", list(out), CountingDeque.pops)
     except sr.ImpossibleSequenceError:
         return ("imp", None, CountingDeque.pops)
+    except CaseTimeout:
+        return ("err", "no-result-within-%ds" % CASE_TIMEOUT_S, 0)
     except Exception as e:  # anything else is not something the function documents
         return ("err", type(e).__name__, CountingDeque.pops)
+    finally:
+        signal.alarm(0)
+        signal.signal(signal.SIGALRM, old)
 
 
-def run_all_real(cases, workers=16):
+def run_all_real(cases, workers=16, batch=320, max_timeouts=6):
+    """all cases in worker processes; gives up (kind "skip") once several calls did not return in time"""
     if len(cases) < 50:
         return [run_real(c) for c in cases]
+    out = []
     with concurrent.futures.ProcessPoolExecutor(max_workers=workers) as ex:
-        return list(ex.map(run_real, cases, chunksize=max(1, min(50, len(cases) // (4 * workers)))))
+        for k in range(0, len(cases), batch):
+            if sum(1 for o in out if o[0] == "err" and str(o[1]).startswith("no-result")) >= max_timeouts:
+                out.extend([("skip", None, 0)] * (len(cases) - len(out)))
+                break
+            out.extend(ex.map(run_real, cases[k:k + batch], chunksize=4))
+    return out
 
 
 # ----------------------------------------------------------------------------------
@@ -408,6 +434,12 @@ def run(ctx):
     tagged = [(k, c) for k, c in tagged if hypothesis_ok(ref, c)]
     cases = [c for _k, c in tagged]
     obs = run_all_real(cases)
+    nskip = sum(1 for o in obs if o[0] == "skip")
+    if nskip:
+        ctx.obligation("harness:every generated call was run", False, "harness",
+                       "%d calls skipped after several calls did not return within %d s" % (nskip, CASE_TIMEOUT_S))
+        keep = [i for i, o in enumerate(obs) if o[0] != "skip"]
+        tagged, cases, obs = [tagged[i] for i in keep], [cases[i] for i in keep], [obs[i] for i in keep]
 
     # ---- correspondence ------------------------------------------------------------------
     imports = ["Model.Regex", "Model.NFA", "Model.Matcher", "Model.MatchSeq", "Corr.C19"]
